@@ -121,3 +121,39 @@ func VerifH_C10_topicTable() {
 	}
 	vf.Reach("topic-table-checked")
 }
+
+// ---- shutdown: only what was marked (= finished) is committed ----
+
+var verifStopCalls []string
+
+func verifStubCommitMarked(c *kgo.Client, ctx context.Context) error {
+	verifStopCalls = append(verifStopCalls, "marked")
+	return nil
+}
+func verifStubCommitUncommitted(c *kgo.Client, ctx context.Context) error {
+	verifStopCalls = append(verifStopCalls, "uncommitted")
+	return nil
+}
+func verifStubCommitRecords(c *kgo.Client, ctx context.Context, rs ...*kgo.Record) error {
+	verifStopCalls = append(verifStopCalls, "records")
+	return nil
+}
+func verifStubClose(c *kgo.Client) { verifStopCalls = append(verifStopCalls, "close") }
+
+// C10.H4: Stop sends the final commit for the marked offsets only (records that were polled but are
+// still unfinished must not be committed), before the client is closed.
+func VerifH_C10_stopCommitsMarkedOnly() {
+	verifStopCalls = nil
+	p := &Plugin{config: &Config{Topics: []string{"t"}}, cancel: func() {}}
+	if !vf.Symbolic() {
+		p.logger = zap.NewNop().Sugar()
+	}
+	p.Stop()
+	ok := len(verifStopCalls) == 2 && verifStopCalls[0] == "marked" && verifStopCalls[1] == "close"
+	if vf.Param("twin", 0) == 1 {
+		vf.Assert(!ok, "stop-commits-marked-offsets-only")
+		return
+	}
+	vf.Assert(ok, "stop-commits-marked-offsets-only")
+	vf.Reach("stopped")
+}
